@@ -463,6 +463,51 @@ func Mutate(c *vh.Ctx, der []byte) []byte {
 	return out
 }
 
+// Sweep returns the systematic single-node variants of der: for every node of the
+// tree, the encoding with that node deleted, emptied, duplicated, and with its length
+// octets one too small.
+func Sweep(der []byte) [][]byte {
+	base := Parse(der, 0)
+	if base == nil {
+		return nil
+	}
+	var count []ref
+	collect(&base, &count)
+	var out [][]byte
+	for i := range count {
+		for op := 0; op < 4; op++ {
+			tree := make([]*Node, len(base))
+			for k := range base {
+				tree[k] = base[k].clone()
+			}
+			var refs []ref
+			collect(&tree, &refs)
+			r := refs[i]
+			n := (*r.parent)[r.i]
+			switch op {
+			case 0:
+				*r.parent = append((*r.parent)[:r.i:r.i], (*r.parent)[r.i+1:]...)
+			case 1:
+				if n.Children != nil {
+					n.Children = []*Node{}
+				} else {
+					n.Content = nil
+				}
+			case 2:
+				*r.parent = append((*r.parent)[:r.i+1:r.i+1], append([]*Node{n.clone()}, (*r.parent)[r.i+1:]...)...)
+			default:
+				l := len(n.Encode()) - 3
+				if l < 0 {
+					continue
+				}
+				n.LenBytes = encLen(l)
+			}
+			out = append(out, EncodeAll(tree))
+		}
+	}
+	return out
+}
+
 func flat(n *Node) {
 	if n.Children != nil {
 		n.Content = append(append([]byte(nil), n.Prefix...), EncodeAll(n.Children)...)
